@@ -353,4 +353,67 @@ def run(ctx):
             else:
                 r.fail(w, a.ast, "add_content not paired with the print", "%s can record text it does not print (or print text it does not record) - e.g. the recording comes before the verbosity gate: "
                        "the next overwrite or clear then erases one row too many, taking a line of the section above with it" % w.short)
+
+    # ---------------------------------------------------------------- R8
+    ctx.borrow("c11", "C11-R10", "C15-R8", "the rows a line occupies are counted on what is printed: the text is stripped for counting by the same engine that renders it, so that a "
+               "tag-like word the engine prints literally is counted too (an under-counted wrapped line leaves a stale row)")
+
+    # ---------------------------------------------------------------- R9
+    r = ctx.rule("C15-R9", "INVALID", "the section's content is what the content list holds now: a field that remembers something computed from the content list is dropped on every path "
+                 "that changes the list (full clear, partial clear, append)", reference=1)
+    cfields = sorted(content_fields)
+    memos = {}
+    for name, m in sec.methods.items():
+        for n in walk_no_nested(m.node):
+            if isinstance(n, ast.Assign) and any(is_self_attr(t) for t in n.targets) and any(is_self_attr(x) and x.attr in cfields for x in ast.walk(n.value)):
+                for t in n.targets:
+                    if is_self_attr(t) and t.attr not in cfields and t.attr != ROWS:
+                        memos[t.attr] = (m, n)
+    if not memos:
+        r.ok("SectionOutput keeps nothing derived from self.%s (content is joined on demand)" % "/".join(cfields))
+    for fld, (gm, gn) in sorted(memos.items()):
+        for name, m in sorted(sec.methods.items()):
+            if name == "__init__" or m is gm:
+                continue
+            cfg = ctx.cfg(m)
+            muts = [n for n in cfg.nodes if n.kind == "stmt" and n.ast is not None and (
+                (isinstance(n.ast, ast.Delete) and any(isinstance(t, ast.Subscript) and is_self_attr(t.value) and t.value.attr in cfields for t in n.ast.targets))
+                or (isinstance(n.ast, ast.Assign) and any(is_self_attr(t) and t.attr in cfields for t in n.ast.targets))
+                or any(isinstance(c, ast.Call) and isinstance(c.func, ast.Attribute) and c.func.attr in q.MUTATORS and is_self_attr(c.func.value) and c.func.value.attr in cfields for c in walk_no_nested(n.ast)))]
+            if not muts:
+                continue
+            resets = {n.id for n in cfg.nodes if n.kind == "stmt" and isinstance(n.ast, ast.Assign) and any(is_self_attr(t, fld) for t in n.ast.targets)}
+            stale = [w for w in muts if not (resets and (cfg.post_dominated_by(w.id, resets) or any(cfg.dominates(x, w.id) and False for x in resets)))]
+            if stale:
+                r.fail(m, stale[0].ast, "self.%s not dropped after %s" % (fld, norm(stale[0].ast)[:50]), "%s changes the content list (%s) on a path that does not reset self.%s, which %s computed from the list: "
+                       "cleared lines come back on the screen at the next repaint from above" % (m.short, norm(stale[0].ast)[:60], fld, gm.short))
+            else:
+                r.ok("%s: self.%s reset after every change of the content list" % (m.short, fld))
+
+    # ---------------------------------------------------------------- R10
+    r = ctx.rule("C15-R10", "KEY", "what is measured is what is recorded: the string whose rows are added to the row counter is the very string appended to the content list "
+                 "(indentation included)", reference=1)
+    n10 = 0
+    for name, m in sorted(sec.methods.items()):
+        for loop in [n for n in walk_no_nested(m.node) if isinstance(n, ast.For)]:
+            incs = [n for n in walk_no_nested(loop) if isinstance(n, ast.AugAssign) and is_self_attr(n.target, ROWS) and isinstance(n.op, ast.Add)]
+            apps = [c for c in walk_no_nested(loop) if isinstance(c, ast.Call) and isinstance(c.func, ast.Attribute) and c.func.attr == "append" and is_self_attr(c.func.value) and c.func.value.attr in content_fields
+                    and c.args and not isinstance(c.args[0], ast.Constant)]
+            if not incs or not apps:
+                continue
+            n10 += 1
+            measured = set()
+            for inc in incs:
+                for c in ast.walk(inc.value):
+                    if isinstance(c, ast.Call) and c.args:
+                        measured |= {norm(a) for a in c.args}
+                measured |= {norm(x) for x in ast.walk(inc.value) if isinstance(x, ast.Name)}
+            recorded = {norm(c.args[0]) for c in apps}
+            if recorded <= measured:
+                r.ok("%s: rows of %s counted, %s recorded" % (m.short, ", ".join(sorted(recorded)), ", ".join(sorted(recorded))))
+            else:
+                r.fail(m, apps[0], "recorded %s but measured %s" % (", ".join(sorted(recorded)), ", ".join(sorted(measured - {"self"}))[:60]), "%s records `%s` but counts the rows of something else: when the "
+                       "difference (the indentation) pushes a line over the terminal width the section is under-counted by a row and stale text stays" % (m.short, ", ".join(sorted(recorded))))
+    if n10 == 0:
+        r.fail(list(sec.methods.values())[0], sec.node, "no record loop", "no loop that counts rows and records lines found in SectionOutput")
     return ctx.results
